@@ -182,6 +182,7 @@ func flushDeletes(bs store.BadgerStore, ops *compactionInstruction, finalFlush b
 			}
 		}
 		// fmt.Println("deleted", len(all), "keys")
+		verifhook.Point(bs.GetDB(), "compact.insideFlush")
 		removed := make(map[string]bool, len(all))
 		for _, key := range all {
 			removed[string(key)] = true
